@@ -201,10 +201,10 @@ func z3Args(bin string, t int) []string {
 
 var solvers = []solverSpec{
 	{"z3-new", func(t int) []string { return z3Args("z3-new", t) }},
-	{"z3", func(t int) []string { return z3Args("z3", t) }},
 	{"cvc5", func(t int) []string {
 		return []string{"cvc5", fmt.Sprintf("--tlimit=%d", t*1000), "--lang=smt2", "-"}
 	}},
+	{"z3", func(t int) []string { return z3Args("z3", t) }},
 }
 
 func runSolver(sp solverSpec, query string, timeoutS int) (string, string, time.Duration) {
@@ -377,6 +377,10 @@ func dischargeAll(obls []*Obl, timeoutS, workers int) {
 		solvers := map[string]bool{}
 		for _, p := range ps {
 			o.TimeMS += p.TimeMS
+			if p.TimeMS > o.MaxPartMS {
+				o.MaxPartMS = p.TimeMS
+				o.SlowPart = p.Name[len(o.Name)+1:] + " " + p.Solver
+			}
 			solvers[p.Solver] = true
 			if p.Status != "discharged" {
 				if o.Status == "discharged" || p.Status == "failed" {
